@@ -44,6 +44,8 @@ type Prog struct {
 	// Funcs are all source functions (incl. methods and closures) of the repo packages.
 	Funcs []*ssa.Function
 	npkgs int
+
+	constGlobals map[*ssa.Global]ssa.Value
 }
 
 // brokenf reports that the check itself cannot run (exit 2): never a silent pass.
@@ -307,4 +309,92 @@ func (p *Prog) FuncDecl(pkgpath, name string) *ast.FuncDecl {
 		}
 	}
 	return nil
+}
+
+// ConstGlobal: if the package variable g of a repository package is effectively constant - every use in the repository
+// is a load, except exactly one store in the package initialiser whose value is a constant or a call with constant
+// arguments (regexp.MustCompile("..."), time.Unix(1, 0), errors.New("...")) - the stored value; nil otherwise.
+func (p *Prog) ConstGlobal(g *ssa.Global) ssa.Value {
+	if p.constGlobals == nil {
+		p.constGlobals = map[*ssa.Global]ssa.Value{}
+		uses := map[*ssa.Global][]ssa.Instruction{}
+		var fns []*ssa.Function
+		fns = append(fns, p.Funcs...)
+		for _, sp := range p.SPkgs {
+			if f := sp.Func("init"); f != nil {
+				fns = append(fns, f)
+			}
+		}
+		seen := map[*ssa.Function]bool{}
+		for _, f := range fns {
+			if seen[f] {
+				continue
+			}
+			seen[f] = true
+			var rands []*ssa.Value
+			for _, b := range f.Blocks {
+				for _, in := range b.Instrs {
+					rands = in.Operands(rands[:0])
+					for _, r := range rands {
+						if gg, ok := (*r).(*ssa.Global); ok {
+							uses[gg] = append(uses[gg], in)
+						}
+					}
+				}
+			}
+		}
+		for gg, us := range uses {
+			if gg.Pkg == nil || p.SPkgs[gg.Pkg.Pkg.Path()] == nil {
+				continue
+			}
+			if o := gg.Object(); o != nil && o.Exported() {
+				continue // a client may assign it
+			}
+			var val ssa.Value
+			ok := true
+			n := 0
+			for _, u := range us {
+				switch x := u.(type) {
+				case *ssa.UnOp:
+					if x.Op != token.MUL {
+						ok = false
+					}
+				case *ssa.Store:
+					if x.Addr != ssa.Value(gg) || x.Parent().Name() != "init" || x.Parent().Synthetic == "" {
+						ok = false
+					}
+					n++
+					val = x.Val
+				default:
+					ok = false
+				}
+			}
+			if ok && n == 0 {
+				// never assigned: the zero value of its type
+				if pt, isP := gg.Type().(*types.Pointer); isP {
+					p.constGlobals[gg] = ssa.NewConst(nil, pt.Elem())
+				}
+				continue
+			}
+			if !ok || n != 1 || val == nil {
+				continue
+			}
+			pure := false
+			switch v := val.(type) {
+			case *ssa.Const:
+				pure = true
+			case *ssa.Call:
+				pure = v.Call.StaticCallee() != nil && !p.InRepo(v.Call.StaticCallee())
+				for _, a := range v.Call.Args {
+					if _, isK := a.(*ssa.Const); !isK {
+						pure = false
+					}
+				}
+			}
+			if pure {
+				p.constGlobals[gg] = val
+			}
+		}
+	}
+	return p.constGlobals[g]
 }
